@@ -206,9 +206,11 @@ impl EventLoop {
         select! {
             // Pull a bunch of packets from network, reply in bunch and yield the first item
             o = network.readb(&mut self.state) => {
+                // flush all the acks and return first incoming packet. The acks of the packets
+                // handled before a later one of the batch failed are announced: they go out too
+                let flushed = time::timeout(network_timeout, network.flush()).await;
                 o?;
-                // flush all the acks and return first incoming packet
-                match time::timeout(network_timeout, network.flush()).await {
+                match flushed {
                     Ok(inner) => inner?,
                     Err(_)=> return Err(ConnectionError::FlushTimeout),
                 };
